@@ -774,8 +774,16 @@ impl Callbacks for FactsCb {
                 .impl_of_assoc(did)
                 .map(|i| tcx.is_automatically_derived(i))
                 .unwrap_or(false);
+            // names of the generic parameters in the order of the callee's GenericArgs (parent's first): lets a client map the
+            // instantiated `generics` of a call to the names used in the callee's MIR types
+            let gens = tcx.generics_of(did);
+            let mut gnames: Vec<String> = Vec::new();
+            for i in 0..gens.count() {
+                gnames.push(jstr(&gens.param_at(i, tcx).name.to_string()));
+            }
             funcs.push(jobj(vec![
                 ("path", jstr(&cx.path(did))),
+                ("generic_params", jlist(gnames)),
                 ("raw", jstr(&cx.raw_path(did))),
                 ("kind", jstr(&format!("{:?}", kind))),
                 ("vis", jstr(&vis)),
